@@ -140,3 +140,30 @@ Proof.
               H Er Eps (layout_of cc r Er) gen_codes_clean_obl HD HP HDRAWS) as (values & Hb & ONLY).
   exact (built_national_valid cc r cls acc w values b Er Hde Hreg Hw Hb ONLY).
 Qed.
+
+(* ---- a registry-based draw belongs to a listed bank ------------------------------------------------------------------ *)
+(* every registry entry of the country carries a bank code of the width of the bank-identifying field (bank code, or
+   bank code followed by branch code) *)
+Definition all_fit (cc : text) : bool := all_fit_gen the_components the_table the_banks cc.
+
+Theorem gen_random_listed : forall cc0 reg pins ci bi draws cc b r ps,
+  reg = true ->
+  random_bban' cc0 reg pins ci bi draws = Ok (cc, b) ->
+  find_row the_table cc = Some r -> r_positions r = Some ps -> all_fit cc = true ->
+  (forall k v, In (k, v) pins -> cleaned the_env v = true) ->
+  (forall d, In d draws -> cleaned the_env (upper the_env d) = true) ->
+  assoc k_bank pins = None -> assoc k_branch pins = None ->
+  (bi < List.length (country_entries the_banks cc))%nat ->
+  exists x, bban_bank the_table (bank_code_entries the_banks) cc b = Ok (Some x) /\ In x the_banks /\ e_cc x = cc
+    /\ bban_lookup_key the_table cc b = Ok (e_code x).
+Proof.
+  intros cc0 reg pins ci bi draws cc b r ps Hreg H Er Eps Hfit HP HDRAWS NB NBR Hbi.
+  assert (HD : forall k0 v0, In (k0, v0) (r_defaults r) -> cleaned the_env v0 = true).
+  { intros k0 v0 Hin. pose proof gen_defaults_clean_obl as O. rewrite forallb_forall in O.
+    specialize (O r (proj1 (find_row_in _ _ _ Er))). rewrite forallb_forall in O. exact (O (k0, v0) Hin). }
+  assert (Hcc : cc <> []).
+  { destruct (row_facts the_iban_cfg the_table table_obl cc r Er) as (c1 & c2 & kds & Ecc & _). rewrite Ecc. discriminate. }
+  exact (random_listed the_env the_components the_table the_algos the_banks env_obl gen_zero_obl cc0 reg pins ci bi draws cc b r ps
+           Hreg H Er Eps (layout_of cc r Er) Hcc gen_codes_clean_obl HD HP HDRAWS (fun vals K => gen_shape cc r Er vals K) NB NBR Hbi
+           (all_fit_entries the_components the_table the_banks cc r Er Hfit)).
+Qed.
